@@ -324,7 +324,7 @@ fn main() {
     // ordered pair of them
     {
         let lens = tu_verif::enumerate::threshold_lengths(run.pick(8, 10));
-        run.bounds.insert("a_long_phase".into(), json!(format!("symbol counts {lens:?} x 2 symbol patterns x every ordered pair of 6 gap patterns x use_graphemes")));
+        run.bounds.insert("a_long_phase".into(), json!(format!("symbol counts {lens:?} x (2 symbol patterns x every ordered pair of 6 gap patterns; every ordered pair of 7 texts around one grapheme cluster of that many code points) x use_graphemes")));
         let base_l = n_e + (ews.len() + ebs.len()) as u64;
         for (k, n) in lens.iter().enumerate() {
             if !run.unit(base_l + k as u64) {
@@ -349,6 +349,16 @@ fn main() {
                         for g in [false, true] {
                             check_a(&mut run, from, to, g);
                         }
+                    }
+                }
+            }
+            // one grapheme cluster of n code points inside a text, gaps before and after it
+            let w = format!("a{}", "\u{301}".repeat(*n - 1));
+            let texts = [format!("x{w}y"), format!("x {w}y"), format!("x{w} y"), format!("x {w} y"), w.clone(), format!("{w} {w}"), format!("{w}{w}")];
+            for from in &texts {
+                for to in &texts {
+                    for g in [false, true] {
+                        check_a(&mut run, from, to, g);
                     }
                 }
             }
